@@ -12,47 +12,47 @@ CHECKS = {
    "DESIGN.md §4 C06"),
  "C15": ("hostile", "exploration",
    "generated hostile inputs (arbitrary bytes and structured mutations of valid encodings from the C12/C13/C14/C16/C17 generators) for 24 decoder entry points, each case in an isolated worker process with panic, abort/stack-overflow, allocation and CPU-time oracles; ddmin minimisation of failures",
-   "Each case runs in a child process on an 8 MiB-stack thread under catch_unwind with a counting global allocator (requests above 64 MiB are served by mmap(MAP_NORESERVE) so a huge reservation is measured instead of aborting) and per-thread CPU accounting plus a 10 s CPU watchdog; the parent attributes a process death to the case that was started and restarts after it. A returned value or error is fine; a panic, abort, stack overflow, more than 8 MiB + 256 B/byte of memory or more than 250 ms + 20 us/byte of CPU (minimum of three runs) is a violation, minimised with ddmin in further child processes. Regression inputs for the repaired defects D7-D11 run first in every campaign.",
+   "Each case runs in a child process on an 8 MiB-stack thread under catch_unwind with a counting global allocator (requests above 64 MiB are served by mmap(MAP_NORESERVE) so a huge reservation is measured instead of aborting) and per-thread CPU accounting plus a 10 s CPU watchdog; the parent attributes a process death to the case that was started and restarts after it. A returned value or error is fine; a panic, abort, stack overflow, more than 8 MiB + 256 B/byte of memory or more than 250 ms + 20 us/byte of CPU (minimum of three runs) is a violation, minimised with ddmin in further child processes; a failing case is first re-run in a process of its own and only counts when it reproduces (a wall-clock stall is exit 2). Mutations include chains of 2-64 nested arrays/maps with huge declared lengths in front of any item. Sixteen growth families (HID packet streams, CBOR/JSON lists, unknown members, labels ...) are measured at n and 4n: CPU time at 4n must stay within 8x the time at n. Regression inputs for the repaired defects D7-D11, D8b and D14 run first in every campaign.",
    "'out of proportion' is a numeric threshold chosen by the harness; a wall-clock stall without CPU use is inconclusive, not a violation",
    "DESIGN.md §4 C15"),
  "C18": ("hostile", "exploration",
    "differential testing: generated requests and authenticator states driven through <Authenticator as Ctap2Api> and through the direct methods on two authenticators built from the same description, in isolated worker processes (termination oracle)",
-   "For generated getInfo / makeCredential / getAssertion requests (valid and failing in every documented way), store contents, capabilities, hmac-secret configurations and user-validation behaviours, the trait call must terminate (a stack overflow or abort kills the worker and is attributed to the case) and agree with the direct call: same status byte on errors; same authenticator data, selected credential, user entity, extension outputs and a verifying signature on successes (registrations by shape, as keys and ids are random); same abstract store state, same user-validation call log and same sequence of store calls.",
+   "For generated getInfo / makeCredential / getAssertion requests (valid and failing in every documented way), store contents, capabilities, hmac-secret configurations and user-validation behaviours, the trait call must terminate (a stack overflow or abort kills the worker and is attributed to the case) and agree with the direct call: same status byte on errors; same authenticator data, selected credential, user entity, extension outputs and a verifying signature on successes (registrations by shape, as keys and ids are random); same abstract store state, same user-validation call log and same sequence of store calls. RP IDs are also arbitrary text (0-70 characters, 1-4 byte characters) and store calls may fail with any status byte, both sides armed alike.",
    "two separately built but identically described authenticators stand for 'an authenticator in the same state'",
    "DESIGN.md §4 C18"),
  "C13": ("codec", "exploration",
    "proptest-generated CTAP2 message values against key tables transcribed from the specification (reference table), CBOR round-trip, injected unknown/duplicate/missing keys, and exhaustive enumeration of all 256 status bytes",
-   "For the six message types, generated values with every optional member present/absent are serialised and re-read as generic CBOR: the top-level keys must be exactly the integers the specification assigns to the present members, ascending, each carrying the encoding of the member assigned to it; deserialising yields an equal message (order-normalised CBOR equality); unknown integer keys 0..255 and unknown text keys are ignored; every duplicated member and every removed required member is an error; absent options and all 8 partial option maps give up=true, rk=uv=false. All 256 status bytes are enumerated: conversion both ways, injectivity, the client mapping and an end-to-end Client::authenticate with a store double failing with that byte.",
+   "For the six message types, generated values with every optional member present/absent are serialised and re-read as generic CBOR: the top-level keys must be exactly the integers the specification assigns to the present members, ascending, each carrying the encoding of the member assigned to it; deserialising yields an equal message (order-normalised CBOR equality); unknown integer keys 0..255 and unknown text keys are ignored; every duplicated member and every removed required member is an error; a key occurring twice with null in first, second or both places is an error too; absent options and all 8 partial option maps give up=true, rk=uv=false; byte strings are occasionally 4095-6000 bytes long. All 256 status bytes are enumerated: conversion both ways, injectivity, the client mapping and an end-to-end Client::authenticate with a store double failing with that byte.",
    "nested member encodings are taken from serde on the member alone (the statement constrains top-level keys); trusts ciborium::Value as the generic reader",
    "DESIGN.md §4 C13"),
  "C14": ("codec", "exploration",
    "proptest-generated option trees rendered under many JSON presentations and compared with the canonical presentation (differential/metamorphic oracle); byte-string and emitted-credential round-trips; order-preserving key scan of client data",
-   "Each generated creation/request options value is rendered canonically and under four generated presentations (binary members as number array / base64url / base64, padded or not; numbers as number, string, integral float, exponent, stringified float; unknown members at every object level; unknown enumeration strings; allowList alias) and both must parse to the same value; base64url encode/decode and Bytes<->String are checked as identities on generated byte strings together with every textual presentation; collected client data with generated nested extras and unknown members must serialise type, challenge, origin, crossOrigin first and keep the original order (also after parse/re-serialise and in clientDataJSON produced by real ceremonies); credentials emitted by real registrations/assertions must re-parse from their JSON to an equal value.",
+   "Each generated creation/request options value is rendered canonically and under four generated presentations (binary members as number array / base64url / base64, padded or not; numbers as number, string, integral float, exponent, stringified float; unknown members at every object level; unknown enumeration strings; allowList alias) and both must parse to the same value; base64url encode/decode and Bytes<->String are checked as identities on generated byte strings together with every textual presentation; collected client data with generated nested extras and unknown members must serialise type, challenge, origin, crossOrigin first and keep the original order (also after parse/re-serialise and in clientDataJSON produced by real ceremonies); credentials emitted by real registrations/assertions (challenges and extra client data up to several KiB) must re-parse from their JSON to an equal value. The whole check runs a second time against the library built with its serialize_bytes_as_base64_string feature (separate harness build, results merged into the evidence).",
    "values compared through Debug rendering (no PartialEq on the types); serde_json with preserve_order is the order-preserving scanner",
    "DESIGN.md §4 C14"),
  "C12": ("codec", "exploration",
    "proptest-generated authenticator data values: independent fixed-offset decoder (layout oracle), round-trip, and enumeration of every strict prefix / single-byte corruption of a subset",
-   "Values built with the public constructor and setters over RP IDs, counters, flag sets, AAGUIDs, credential-id lengths at every u8/u16 boundary up to 65535 (and beyond for the constructor guard), EC2 keys and both extension output types are encoded and decoded by the harness's own layout decoder (rpIdHash recomputed from the RP ID, big-endian counter, AT/ED iff section present, aaguid/length/id/COSE key/extension map bytes) and by the library (round-trip equality, absent counter reads back as 0); every strict prefix, reserved flag bits and flagged-but-missing sections must be rejected; corrupted encodings must not panic and must decode to a fixpoint.",
+   "Values built with the public constructor and setters over RP IDs, counters, flag sets, AAGUIDs, credential-id lengths at every u8/u16 boundary up to 65535 (and beyond for the constructor guard), EC2 keys (parameters in any order) and both extension output types, optionally followed by a second extension-setter call, are encoded and decoded by the harness's own layout decoder (rpIdHash recomputed from the RP ID, big-endian counter, AT/ED iff section present, aaguid/length/id/COSE key/extension map bytes) and by the library (round-trip equality, absent counter reads back as 0); every strict prefix, reserved flag bits and flagged-but-missing sections must be rejected; corrupted encodings must not panic and must decode to a fixpoint.",
    "AT/ED are controlled by the section setters only (set_flags gets UP/UV/BE/BS); trailing bytes are not constrained by the statement",
    "DESIGN.md §4 C12"),
  "C16": ("hid", "exploration",
    "complete payload-length sweep 0..=7700 plus proptest messages through an independent packet parser and a fresh receiver (round-trip oracle); complete enumeration of all order-preserving merges of short multi-channel streams plus generated merges",
-   "Every payload length 0..=7700 (and 65535/65536/70000) is sent; the bytes written are parsed by the harness's own CTAPHID packet parser (64-byte packets, header layout, sequence numbers from 0 with bit 7 clear, zero padding, concatenation equals payload, nothing accepted above 7609) and fed to a fresh ChannelHandler (nothing before the last packet, exactly one equal message on it, orphan continuation yields nothing). For 2-4 channels all order-preserving merges of streams with up to 9 packets in total are enumerated for nine command rotations (so INIT, CANCEL ... appear on every channel position) and longer streams get generated merges.",
+   "Every payload length 0..=7700 (and 65535/65536/70000) is sent; the bytes written are parsed by the harness's own CTAPHID packet parser (64-byte packets, header layout, sequence numbers from 0 with bit 7 clear, zero padding, concatenation equals payload, nothing accepted above 7609) and fed to a fresh ChannelHandler (nothing before the last packet, exactly one equal message on it, orphan continuation yields nothing). For 2-4 channels all order-preserving merges of streams with up to 9 packets in total are enumerated for nine command rotations (so INIT, CANCEL ... appear on every channel position) and longer streams get generated merges: uniformly mixed ones, and skewed ones in which one channel pauses inside its message while other channels send whole messages of up to 129 packets and a further channel starts only afterwards.",
    "channel id byte order accepted as either endianness but fixed within a message; refusals at or below 7609 are measured (the sender refuses exactly 7609)",
    "DESIGN.md §4 C16"),
  "C17": ("u2f", "exploration",
    "proptest-generated U2F register/authenticate histories verified with p256 under the model's registered key, harness-side re-encoding of responses (reference encoder) and APDU round-trip of generated request frames",
-   "Histories over three store kinds with key handles of every length 0..=255 (each length also once deterministically), counters, all presence flag bytes and control bytes: the registration signature must verify over 0x00||app||challenge||handle||0x04||x||y, the store must hold a credential for (application, handle) whose private key matches, authentication must verify over app||presence||counter_be||challenge under that key, an unknown handle must fail, and encode() of every response must equal the harness's own field concatenation ending in 9000; generated well-formed extended-length frames must parse back to the same request.",
+   "Histories over three store kinds with key handles of every length 0..=255 (each length also once deterministically; handles are registered again in 30% of the registrations), counters, all presence flag bytes and control bytes, and on the reference store registrations during which a store call fails (such a registration must not report success unless the credential is there): the registration signature must verify over 0x00||app||challenge||handle||0x04||x||y, the store must hold a credential for (application, handle) whose private key matches, authentication must verify over app||presence||counter_be||challenge under that key, an unknown handle must fail, and encode() of every response must equal the harness's own field concatenation ending in 9000; generated well-formed extended-length frames must parse back to the same request.",
    "registration signature accepted as DER or r||s; version frames asserted with Le absent/0 only; wrong-application with a registered handle is measured (MemoryStore ignores the RP, D5)",
    "DESIGN.md §4 C17"),
  "C19": ("sched", "exploration",
    "harness-owned scheduler over hand-polled ceremonies: complete DFS over all schedules of small configurations plus proptest-generated schedules; invariant oracle over results, final store and the store event log",
-   "Two or three real authenticators share one Arc<Mutex<_>> / Arc<RwLock<_>> store (inner store suspends inside calls so guards are held across suspensions, user validation suspends too). Every decision 'poll the k-th runnable ceremony' is a choice point; all schedules of ~400 fixed configurations (all pair types x suspension counts, some triples) are enumerated by prefix replay, larger configurations get generated shrinkable schedules. Judged: no deadlock (nobody runnable while ceremonies unfinished), every successful registration's credential present at the end, same-credential assertions pairwise distinct with the largest equal to the stored value, no unexpected failures.",
+   "Two or three real authenticators share one Arc<Mutex<_>> / Arc<RwLock<_>> store (inner store suspends inside calls so guards are held across suspensions, user validation suspends too). Every decision 'poll the k-th runnable ceremony' is a choice point; all schedules of ~400 fixed configurations (all pair types x suspension counts, some triples) are enumerated by prefix replay, larger configurations get generated shrinkable schedules. Judged: no deadlock (nobody runnable while ceremonies unfinished), every successful registration's credential present at the end, same-credential assertions pairwise distinct with the largest equal to the stored value, no unexpected failures. Ceremony sets also contain an assertion that the authenticator refuses after the user prompt (PRF on a credential without secrets) next to successful ones: then the stored counter must lie between the largest reported one and start + number of assertions, and in every schedule above the start value once an assertion was answered.",
    "known finding D13 (overlapping lookup..update windows of two assertions on one credential) is recognised from the tagged store event log and counted; the same symptom without overlap, any deadlock and any lost credential are violations. Determinism relies on the harness owning all suspension points",
    "DESIGN.md §4 C19"),
  "C07": ("faults", "fault_enumeration",
    "fault enumeration over generated scenarios: every store call failing with each status of a set, cancellation after every number of polls, plus proptest combinations; snapshot/log invariant oracle",
-   "For each generated scenario (create / assert / U2F register with extensions, counters, lists, error-inducing options, suspending doubles) the harness first records the fault-free run, then enumerates completely (a) every fallible store call of that run failing with each of seven status bytes and (b) dropping the operation after every possible number of polls, and adds generated combinations of 2-3 faults with cancellation. Store snapshots and the store's call log decide: failed registration => store identical; cancelled registration => identical or plus exactly one complete record; success => the store accepted the save/the exact counter value first; failed/cancelled assertion => only the selected counter may have advanced by one; an injected save/update error never yields success.",
+   "For each generated scenario (create / assert / U2F register with extensions, counters, lists, error-inducing options, suspending doubles) the harness first records the fault-free run, then enumerates completely (a) every fallible store call of that run failing with each of seven status bytes and (b) dropping the operation after every possible number of polls, and adds generated combinations of 2-3 faults with cancellation. Store snapshots and the store's call log decide: failed registration => store identical; cancelled registration => identical or plus exactly one complete record; success => the store accepted the save/the exact counter value first; failed/cancelled assertion => only the selected counter may have advanced by one; an injected save/update error never yields success. Histories on the shipped MemoryStore and Option slot add ceremonies that fail by themselves (refused user, excluded credential, unsupported algorithm, PRF the credential cannot serve, U2F key handles registered again), judged by snapshots before/after every operation.",
    "suspension points are those reachable through the public traits (user validation, store calls), which are all the await points of these ceremonies; get_info cannot fail by its signature",
    "DESIGN.md §4 C07"),
  "C09": ("ceremony", "exploration",
@@ -62,17 +62,17 @@ CHECKS = {
    "DESIGN.md §4 C09"),
  "C04": ("consent", "exploration",
    "complete enumeration of the finite configuration product on fresh authenticators with scripted user-validation doubles; statement-derived oracle plus a metamorphic pair over store content",
-   "All ~4.5k combinations of operation, requested rk/up/uv, verification and presence capability, user-validation outcome (4 results + 3 error codes), pin-auth, store content and exclude list are executed at the authenticator API and (reduced) through Client; success requires the reported presence/verification, UP/UV bits must equal what the double reported, every missing-consent class must fail with the store snapshot unchanged and with the same outcome whether or not a matching credential exists, and the credential shown to check_user must be the one that signs (two matching credentials are stored). The space is finite and is enumerated completely.",
+   "All ~9k combinations of operation, requested rk/up/uv (handed over as a value, or through the request's CBOR encoding with default-valued options and the emptied options map left out), verification and presence capability, user-validation outcome (4 results + 3 error codes), pin-auth, store content and exclude list are executed at the authenticator API and (reduced) through Client; success requires the reported presence/verification, UP/UV bits must equal what the double reported, every missing-consent class must fail with the store snapshot unchanged and with the same outcome whether or not a matching credential exists, and the credential shown to check_user (every time it is consulted) must be the one that signs (two matching credentials are stored). The space is finite and is enumerated completely.",
    "doubles implement the public UserValidationMethod / CredentialStore traits; the counter setting is on so that a premature update would show in the snapshot",
    "DESIGN.md §4 C04"),
  "C05": ("stores", "exploration",
    "proptest-generated store contents and allow/exclude lists against the authenticator (model oracle) and differential contract conformance of every shipped store and lock wrapper against the reference lookup semantics",
-   "(A) generated contents over three RPs with identical user handles and every list shape (absent, empty, hits, misses, foreign-RP ids, unknown descriptor types) drive get_assertion / make_credential on the reference store, MemoryStore, the Option slot and a lock wrapper: the credential used must belong to the RP and to a non-empty allow list and be the first the reference store lists; credential-excluded must occur exactly when a non-empty exclude list names a credential of the same RP, creating nothing; the store must be queried with None for an empty list and with the request's RP ID. (B) all nine shipped store/wrapper types are compared with the contract { c | c.rp_id == rp and (ids None or c.id in ids) } on generated save/update/query sequences.",
+   "(A) generated contents over three RPs with identical user handles and every list shape (absent, empty, hits, misses, foreign-RP ids, unknown descriptor types) drive get_assertion / make_credential on the reference store, MemoryStore, the Option slot and a lock wrapper: the credential used must belong to the RP and to a non-empty allow list and be, for an absent or empty list, the first the reference store lists; credential-excluded must occur exactly when a non-empty exclude list names a credential of the same RP, creating nothing; the store must be queried with the request's RP ID. (B) all nine shipped store/wrapper types are compared with the contract { c | c.rp_id == rp and (ids None or c.id in ids) } on generated save/update/query sequences. (C) the six lock wrappers are called while another task holds the mutex / write lock / read lock: a lookup (and through the Arc wrappers an update or a save) may wait but must then answer per the contract.",
    "known finding D5 (MemoryStore family ignores rp_id when ids are given) is recognised by signature and counted so the search continues; every other disagreement is a violation",
    "DESIGN.md §4 C05"),
  "C11": ("ceremony", "exploration",
    "complete enumeration of capability x residentKey x requireResidentKey x credProps (x CTAP rk) through the real client/authenticator against the table in the statement",
-   "All 87 configurations are run through Client::register + authenticate (and make_credential/get_assertion for the CTAP-level rk): the rk option that reaches the store must follow the WebAuthn mapping, the stored user handle must exist exactly when the credential is discoverable under the store capability, a required resident key on a non-discoverable-only store must be refused with nothing stored, credProps.rk when requested must equal the stored discoverability and the assertion must return a user handle exactly when one is stored. The space is finite and enumerated completely.",
+   "All ~220 configurations (incl. PRF requested alongside, and the store capability changing to each other value while the user is being asked) are run through Client::register + three authentications under userVerification preferred / discouraged / required (and make_credential/get_assertion for the CTAP-level rk): the rk option that reaches the store must follow the WebAuthn mapping, the stored user handle must exist exactly when the credential is discoverable under the store capability, a required resident key on a non-discoverable-only store must be refused with nothing stored, credProps.rk when requested must equal the stored discoverability and the assertion must return a user handle exactly when one is stored. The space is finite and enumerated completely.",
    "capability is injected through the reference store's get_info",
    "DESIGN.md §4 C11"),
  "C02": ("ceremony", "exploration",
@@ -87,18 +87,18 @@ CHECKS = {
    "DESIGN.md §4 C03"),
  "C08": ("ceremony", "exploration",
    "proptest-generated assertion histories against a per-credential counter model (invariant over the history)",
-   "Histories of up to 40 assertions interleaved over up to 4 credentials with boundary start counters (0, 2^31, 2^32-1, ...) check after every step that the reported counter is previous+1, equals the stored value, that nothing else in the record changed, that counter-less credentials report 0 and are never rewritten, and that at u32::MAX nothing wraps or panics (overflow checks are on in the harness build).",
+   "Histories of up to 40 assertions (and some registrations, on a reference store of every capability and on the shipped stores) interleaved over up to 4 credentials with boundary start counters (0, 2^31, 2^32-1, ...) check after every step that the reported counter is previous+1, equals the stored value, that nothing else in the record changed, that counter-less credentials report 0 and are never rewritten, and that at u32::MAX nothing wraps or panics (overflow checks are on in the harness build).",
    "the harness builds the library with overflow-checks and debug-assertions on, so wrap-around shows as a panic as well as a model mismatch",
    "DESIGN.md §4 C08"),
  "C01": ("rpid", "exploration",
    "proptest-constructed (origin, RP ID) pairs + complete sweep of all list rules against a reference predicate written from the statement (implication oracle), plus spy-instrumented end-to-end ceremonies",
-   "Every (origin, RP ID, configuration) pair is decided by the real RpIdVerifier and by a reference predicate (label-aligned suffix, https, registrable under the harness's own PSL implementation or the plugged provider, localhost exception); acceptance must imply the predicate and yield exactly the effective RP ID. All ~9.8k list rules are swept as RP IDs (A-label and Unicode/Android forms), every character cut of a set of hosts is enumerated, and generated pairs are also pushed through Client::register/authenticate with spy store and spy user validation (rejected => authenticator untouched, accepted => store and rpIdHash see the effective RP ID).",
+   "Every (origin, RP ID, configuration) pair is decided by the real RpIdVerifier and by a reference predicate (label-aligned suffix, https, registrable under the harness's own PSL implementation or the plugged provider, localhost exception); acceptance must imply the predicate and yield exactly the effective RP ID. All ~9.8k list rules are swept as RP IDs (A-label and Unicode/Android forms), every character cut of a set of hosts is enumerated, and generated pairs are also pushed through Client::register/authenticate with spy store and spy user validation (rejected => authenticator untouched, accepted => store and rpIdHash see the effective RP ID; the insecure-localhost switch is also toggled on and off again).",
    "only 'accepted => conditions' is asserted (over-rejections are measured); trusts the url and idna crates for parsing/normalisation and the harness PSL reference (itself cross-checked by C10)",
    "DESIGN.md §4 C01"),
  "C10": ("psl", "exploration",
    "complete rule sweep + proptest generated names against a reference PSL implementation (differential oracle)",
    "Every rule of the shipped .dat is swept (itself, extended by 1-3 labels, leading label removed/replaced) and hundreds of thousands of generated names are compared with an independent implementation of the publicsuffix.org algorithm that reads the .dat at run time; arbitrary strings get structural checks (label-aligned suffix, one more label, empty labels rejected, no panic). Exhaustive over rules, sampled over names: right level for a table-driven lookup whose failure modes are per-rule.",
-   "trusts the idna crate for rule conversion and the harness's ~100-line reference algorithm; agreement asserted on canonical names only",
+   "trusts the idna crate for rule conversion and the harness's ~100-line reference algorithm; agreement asserted on every name without empty labels (literal label matching), address-like names included",
    "DESIGN.md §4 C10"),
 }
 
@@ -130,7 +130,7 @@ def main():
         engines.setdefault(eng, []).append(i)
     m = {
         "version": 1,
-        "setup_cmd": "cd /verif/harness && CARGO_NET_OFFLINE=true cargo build --release --offline",
+        "setup_cmd": "cd /verif/harness && CARGO_NET_OFFLINE=true cargo build --release --offline && CARGO_NET_OFFLINE=true CARGO_TARGET_DIR=/verif/harness/target-b64 cargo build --release --offline --features bytes-as-base64",
         "hooks": {
             "guard": "--cfg passkey_rs_verif",
             "enable": "no hooks are needed: every observation point is reached through the public API plus harness-side doubles of the public CredentialStore / UserValidationMethod traits; checks build /repo's working tree as path dependencies of /verif/harness",
